@@ -24,7 +24,7 @@ partial def expr? : Sexp → Option Expr
   | .list [.atom "v", i] => do some (.var (← nat? i))
   | .list [.atom "d", s, t] => do some (.deriv (← nat? s) (← nat? t))
   | .list [.atom "^", a, n] => do some (.pow (← expr? a) (← int? n))
-  | .list (.atom "opq" :: rs) => do some (.opaque (← rs.mapM node?))
+  | .list (.atom "opq" :: rs) => do some (.opq (← rs.mapM node?))
   | .list [.atom o, a, b] => do some (.bin (← binOp? o) (← expr? a) (← expr? b))
   | _ => none
 
@@ -44,7 +44,7 @@ abbrev Table := List (Nat × Eqn × Expr)
 def rhsOf (tbl : Table) (tok : Nat) : Expr :=
   match tbl.lookup tok with
   | some (_, r) => r
-  | none => .opaque []
+  | none => .opq []
 
 inductive Cmd | op (o : Op) | check | skip
 
